@@ -136,6 +136,32 @@ int main(int argc, char **argv)
 			  printf("[\"KEY\",\"%s\",%d,%d,\"%s\",\"%s\",0,0]\n", name, (int)k.kind, k.bits, k.crv, k.kind == VH_K_OKP ? "EdDSA" : "RS256"); }
 			vh_key_free(&k);
 		}
+		/* OKP keys whose raw private or public octet string starts with 0x00 (1 in 256): these are octet strings, not integers */
+		for (int c = 0; c < 2; c++) {
+			static const char *OS[] = { "okp:Ed25519", "okp:Ed448" };
+			int zd = 0, zx = 0;
+			for (long tries = 0; tries < 20000 && (!zd || !zx); tries++) {
+				vh_key_t k;
+				unsigned char raw[64]; size_t rl = sizeof(raw);
+				int isd, isx;
+				char name[64], *j;
+				if (vh_key_gen(&k, OS[c], &rng)) vh_harness_fail("keygen");
+				isd = EVP_PKEY_get_raw_private_key(k.pkey, raw, &rl) == 1 && rl > 0 && raw[0] == 0;
+				rl = sizeof(raw);
+				isx = EVP_PKEY_get_raw_public_key(k.pkey, raw, &rl) == 1 && rl > 0 && raw[0] == 0;
+				if ((isd && !zd) || (isx && !zx)) {
+					snprintf(name, sizeof(name), "okp_%s_%s", OS[c] + 4, isd && !zd ? "zd" : "zx");
+					write_pems(dir, name, k.pkey);
+					j = vh_key_jwk(&k, 1, NULL, NULL, NULL); write_file(dir, name, ".jwk.json", j, strlen(j)); free(j);
+					j = vh_key_jwk(&k, 0, NULL, NULL, NULL); write_file(dir, name, "_pub.jwk.json", j, strlen(j)); free(j);
+					j = vh_key_jwk(&k, 1, "EdDSA", NULL, NULL); write_file(dir, name, "_alg.jwk.json", j, strlen(j)); free(j);
+					printf("[\"KEY\",\"%s\",%d,%d,\"%s\",\"EdDSA\",%d,%d]\n", name, (int)k.kind, k.bits, k.crv, isx, isd);
+					if (isd && !zd) zd = 1; else zx = 1;
+				}
+				vh_key_free(&k);
+			}
+			if (!zd || !zx) vh_harness_fail("no OKP key with a leading zero octet found for %s", OS[c]);
+		}
 		{	/* a key whose PEM says RSA-PSS (id-RSASSA-PSS), not plain RSA */
 			vh_key_t k;
 			char *j;
